@@ -157,15 +157,24 @@ POOL = [0xED, 0x79, 0xED, 0x41, 0xD3, 0xFD, 0x01, 0xFD, 0x7F, 0x3E, 0x32, 0x00, 
         0xFB, 0xF3, 0x76, 0xED, 0xB0, 0xDD, 0xFD, 0xCB, 0xC9, 0xC3, 0xCD, 0x00, 0x00, 0x00, 0x36, 0x22, 0x2A]
 
 
+import functools
+
+
+@functools.lru_cache(maxsize=8)
+def _fill(seed, n, style):
+    rnd = random.Random(seed)
+    if style == 2:
+        return rnd.randbytes(n)
+    pool = POOL
+    raw = rnd.randbytes(2 * n)
+    return bytes(pool[raw[2 * i] % len(pool)] if raw[2 * i + 1] < 154 else raw[2 * i] for i in range(n))
+
+
 def fill_bytes(seed, n, style):
     """Deterministic background memory: style 0 zeros, 1 pool-heavy, 2 uniform."""
     if style == 0:
         return bytearray(n)
-    rnd = random.Random(seed)
-    if style == 2:
-        return bytearray(rnd.getrandbits(8) for _ in range(n))
-    pool = POOL
-    return bytearray(pool[rnd.randrange(len(pool))] if rnd.random() < 0.6 else rnd.getrandbits(8) for _ in range(n))
+    return bytearray(_fill(seed, n, style))
 
 
 @st.composite
